@@ -1,2 +1,41 @@
-(* C11 -- placeholder *)
-From NV Require Import Model.Boxcar.
+(* C11 -- Every injected item is dropped exactly once, and only after it is unreachable.
+   Statements in Spec/BoxcarStatements.v, proofs in Proofs/DropFacts.v (inductive invariant with a
+   conservation law: every value of a history is in exactly one place - pending inside a live
+   operation, in exactly one written entry, or exactly once in the drop log).  Quantification: every
+   well-formed history (any number of writer threads, pushes with panicking fills, extends whose
+   ExactSizeIterator reports any length and yields any list, panicking at any item, every interleaving at
+   yield-point granularity, any initial capacity).
+   Scope: the vector and its single owner.  Which handle (matcher, snapshot, injectors) is the last
+   owner of a stream is reference counting by Arc (trusted: drop runs once, after the last handle); the
+   handle bookkeeping across restarts is C20's subject.  Matcher columns written by a fill that
+   panics are leaked by design of the property's panic clause (only double drop / use after drop are
+   excluded there).
+   The theorem depends on the TRANSLATED constant drop_stops_at_null (Gen/GenBoxcar.v: what
+   `Drop for Vec` does at a null bucket pointer): with the pinned tree's `break` C11_exactly_once's
+   hypothesis is unprovable and C11_break_leaks is the witness; fixed in /repo by db8cd0c. *)
+From Coq Require Import NArith List Bool.
+From NV Require Import Model.Boxcar Spec.BoxcarStatements Proofs.DropFacts.
+Import ListNotations.
+Local Open Scope N_scope.
+
+(* what the source says today *)
+Theorem C11_drop_continues : drop_stops_at_null = false.
+Proof. reflexivity. Qed.
+
+Theorem C11_exactly_once : C11_exactly_once_stmt.
+Proof. exact DropFacts.C11_exactly_once. Qed.
+
+Theorem C11_never_twice : C11_never_twice_stmt.
+Proof. exact DropFacts.C11_never_twice. Qed.
+
+Theorem C11_not_early : C11_not_early_stmt.
+Proof. exact DropFacts.C11_not_early. Qed.
+
+Theorem C11_break_leaks : C11_break_leaks_stmt.
+Proof. exact DropFacts.C11_break_leaks. Qed.
+
+Print Assumptions C11_drop_continues.
+Print Assumptions C11_exactly_once.
+Print Assumptions C11_never_twice.
+Print Assumptions C11_not_early.
+Print Assumptions C11_break_leaks.
